@@ -287,7 +287,9 @@ public:
 		_thread = 0;
 		_threadFinished = false;
 		_deleteOnExit = false;
-		*this = start(f, this);
+		Context<F> s = { f, this, false, 0, 0, 0 };
+		run((Function_)Thread::beginf<F>, (void*)&s);
+		while (!s.ready) {}
 	}
 	template<class Func>
 	static Thread start(const Func& f, Thread* t)
